@@ -5,6 +5,7 @@ CONSTANTS
   FIXREV = TRUE
   FIXWRAP = TRUE
   FIXHOPS = TRUE
+  FIXOHEXP = TRUE
   XorAcc <- ConcXor
 INVARIANTS TErrIsAtomic TMonotone TEgressForward TXoverForward TPosition
 POSTCONDITION TraceAccepted
